@@ -129,7 +129,12 @@ func inspectDirMode(dir string, static bool) dirState {
 	if !s.Exists {
 		return s
 	}
-	st, _ := store.NewJSONDataStore(dir)
+	st, err := store.NewJSONDataStore(dir)
+	if err != nil || st == nil {
+		// (a reader opens the directory like every process does; the unchanged code only creates the directory here)
+		s.LoadErr = fmt.Sprintf("opening the store: %v", err)
+		return s
+	}
 	d, err := st.Load()
 	if err != nil {
 		s.LoadErr = err.Error()
